@@ -342,129 +342,143 @@ def _gradient_cached(expr: Expression, wrt: Variable) -> Expression:
         operand = expr.operand
         d_operand = _gradient_cached(operand, wrt)
 
-        if expr.op == "neg":
-            # d/dx(-a) = -da
-            return _simplify_neg(d_operand)
-
-        elif expr.op == "abs":
-            # d/dx(|a|) = sign(a) * da
-            # We use a / |a| as sign(a)
-            sign_expr = _simplify_div(operand, expr)
-            return _simplify_mul(sign_expr, d_operand)
-
-        elif expr.op == "sin":
-            # d/dx(sin(a)) = cos(a) * da
-            return _simplify_mul(cos(operand), d_operand)
-
-        elif expr.op == "cos":
-            # d/dx(cos(a)) = -sin(a) * da
-            return _simplify_mul(_simplify_neg(sin(operand)), d_operand)
-
-        elif expr.op == "tan":
-            # d/dx(tan(a)) = (1 + tan^2(a)) * da = sec^2(a) * da
-            # Using 1 / cos^2(a)
-            cos_a = cos(operand)
-            sec2 = _simplify_div(Constant(1.0), _simplify_mul(cos_a, cos_a))
-            return _simplify_mul(sec2, d_operand)
-
-        elif expr.op == "exp":
-            # d/dx(exp(a)) = exp(a) * da
-            return _simplify_mul(expr, d_operand)
-
-        elif expr.op == "log":
-            # d/dx(log(a)) = (1/a) * da
-            return _simplify_mul(_simplify_div(Constant(1.0), operand), d_operand)
-
-        elif expr.op == "sqrt":
-            # d/dx(sqrt(a)) = (1 / (2*sqrt(a))) * da
-            two_sqrt = _simplify_mul(Constant(2.0), expr)
-            return _simplify_mul(_simplify_div(Constant(1.0), two_sqrt), d_operand)
-
-        elif expr.op == "tanh":
-            # d/dx(tanh(a)) = (1 - tanh^2(a)) * da
-            tanh_squared = _simplify_mul(expr, expr)
-            sech2 = _simplify_sub(Constant(1.0), tanh_squared)
-            return _simplify_mul(sech2, d_operand)
-
-        elif expr.op == "sinh":
-            # d/dx(sinh(a)) = cosh(a) * da
-            return _simplify_mul(cosh(operand), d_operand)
-
-        elif expr.op == "cosh":
-            # d/dx(cosh(a)) = sinh(a) * da
-            return _simplify_mul(sinh(operand), d_operand)
-
-        elif expr.op == "asin":
-            # d/dx(asin(a)) = 1 / sqrt(1 - a^2) * da
-            from optyx.core.functions import sqrt as sqrt_fn
-
-            inner = _simplify_sub(Constant(1.0), _simplify_mul(operand, operand))
-            return _simplify_mul(
-                _simplify_div(Constant(1.0), sqrt_fn(inner)), d_operand
-            )
-
-        elif expr.op == "acos":
-            # d/dx(acos(a)) = -1 / sqrt(1 - a^2) * da
-            from optyx.core.functions import sqrt as sqrt_fn
-
-            inner = _simplify_sub(Constant(1.0), _simplify_mul(operand, operand))
-            return _simplify_mul(
-                _simplify_neg(_simplify_div(Constant(1.0), sqrt_fn(inner))), d_operand
-            )
-
-        elif expr.op == "atan":
-            # d/dx(atan(a)) = 1 / (1 + a^2) * da
-            inner = _simplify_add(Constant(1.0), _simplify_mul(operand, operand))
-            return _simplify_mul(_simplify_div(Constant(1.0), inner), d_operand)
-
-        elif expr.op == "asinh":
-            # d/dx(asinh(a)) = 1 / sqrt(1 + a^2) * da
-            from optyx.core.functions import sqrt as sqrt_fn
-
-            inner = _simplify_add(Constant(1.0), _simplify_mul(operand, operand))
-            return _simplify_mul(
-                _simplify_div(Constant(1.0), sqrt_fn(inner)), d_operand
-            )
-
-        elif expr.op == "acosh":
-            # d/dx(acosh(a)) = 1 / sqrt(a^2 - 1) * da
-            from optyx.core.functions import sqrt as sqrt_fn
-
-            inner = _simplify_sub(_simplify_mul(operand, operand), Constant(1.0))
-            return _simplify_mul(
-                _simplify_div(Constant(1.0), sqrt_fn(inner)), d_operand
-            )
-
-        elif expr.op == "atanh":
-            # d/dx(atanh(a)) = 1 / (1 - a^2) * da
-            inner = _simplify_sub(Constant(1.0), _simplify_mul(operand, operand))
-            return _simplify_mul(_simplify_div(Constant(1.0), inner), d_operand)
-
-        elif expr.op == "log2":
-            # d/dx(log2(a)) = 1 / (a * ln(2)) * da
-            ln2 = Constant(np.log(2.0))
-            return _simplify_mul(
-                _simplify_div(Constant(1.0), _simplify_mul(operand, ln2)), d_operand
-            )
-
-        elif expr.op == "log10":
-            # d/dx(log10(a)) = 1 / (a * ln(10)) * da
-            ln10 = Constant(np.log(10.0))
-            return _simplify_mul(
-                _simplify_div(Constant(1.0), _simplify_mul(operand, ln10)), d_operand
-            )
-
-        else:
-            raise UnknownOperatorError(
-                operator=expr.op,
-                context="gradient computation (unary)",
-            )
+        return _unary_gradient(expr, operand, d_operand)
 
     raise InvalidExpressionError(
         expr_type=type(expr),
         context="gradient computation",
         suggestion="Use Variable, Constant, BinaryOp, or UnaryOp expressions.",
     )
+
+
+def _unary_gradient(
+    expr: Expression, operand: Expression, d_operand: Expression
+) -> Expression:
+    """Chain rule for a UnaryOp node, given the operand's derivative.
+
+    Shared by the recursive and the explicit-stack traversals so that both
+    support exactly the same set of elementary functions.
+    """
+    from optyx.core.expressions import Constant
+    from optyx.core.functions import cos, sin, cosh, sinh
+
+    if expr.op == "neg":
+        # d/dx(-a) = -da
+        return _simplify_neg(d_operand)
+
+    elif expr.op == "abs":
+        # d/dx(|a|) = sign(a) * da
+        # We use a / |a| as sign(a)
+        sign_expr = _simplify_div(operand, expr)
+        return _simplify_mul(sign_expr, d_operand)
+
+    elif expr.op == "sin":
+        # d/dx(sin(a)) = cos(a) * da
+        return _simplify_mul(cos(operand), d_operand)
+
+    elif expr.op == "cos":
+        # d/dx(cos(a)) = -sin(a) * da
+        return _simplify_mul(_simplify_neg(sin(operand)), d_operand)
+
+    elif expr.op == "tan":
+        # d/dx(tan(a)) = (1 + tan^2(a)) * da = sec^2(a) * da
+        # Using 1 / cos^2(a)
+        cos_a = cos(operand)
+        sec2 = _simplify_div(Constant(1.0), _simplify_mul(cos_a, cos_a))
+        return _simplify_mul(sec2, d_operand)
+
+    elif expr.op == "exp":
+        # d/dx(exp(a)) = exp(a) * da
+        return _simplify_mul(expr, d_operand)
+
+    elif expr.op == "log":
+        # d/dx(log(a)) = (1/a) * da
+        return _simplify_mul(_simplify_div(Constant(1.0), operand), d_operand)
+
+    elif expr.op == "sqrt":
+        # d/dx(sqrt(a)) = (1 / (2*sqrt(a))) * da
+        two_sqrt = _simplify_mul(Constant(2.0), expr)
+        return _simplify_mul(_simplify_div(Constant(1.0), two_sqrt), d_operand)
+
+    elif expr.op == "tanh":
+        # d/dx(tanh(a)) = (1 - tanh^2(a)) * da
+        tanh_squared = _simplify_mul(expr, expr)
+        sech2 = _simplify_sub(Constant(1.0), tanh_squared)
+        return _simplify_mul(sech2, d_operand)
+
+    elif expr.op == "sinh":
+        # d/dx(sinh(a)) = cosh(a) * da
+        return _simplify_mul(cosh(operand), d_operand)
+
+    elif expr.op == "cosh":
+        # d/dx(cosh(a)) = sinh(a) * da
+        return _simplify_mul(sinh(operand), d_operand)
+
+    elif expr.op == "asin":
+        # d/dx(asin(a)) = 1 / sqrt(1 - a^2) * da
+        from optyx.core.functions import sqrt as sqrt_fn
+
+        inner = _simplify_sub(Constant(1.0), _simplify_mul(operand, operand))
+        return _simplify_mul(
+            _simplify_div(Constant(1.0), sqrt_fn(inner)), d_operand
+        )
+
+    elif expr.op == "acos":
+        # d/dx(acos(a)) = -1 / sqrt(1 - a^2) * da
+        from optyx.core.functions import sqrt as sqrt_fn
+
+        inner = _simplify_sub(Constant(1.0), _simplify_mul(operand, operand))
+        return _simplify_mul(
+            _simplify_neg(_simplify_div(Constant(1.0), sqrt_fn(inner))), d_operand
+        )
+
+    elif expr.op == "atan":
+        # d/dx(atan(a)) = 1 / (1 + a^2) * da
+        inner = _simplify_add(Constant(1.0), _simplify_mul(operand, operand))
+        return _simplify_mul(_simplify_div(Constant(1.0), inner), d_operand)
+
+    elif expr.op == "asinh":
+        # d/dx(asinh(a)) = 1 / sqrt(1 + a^2) * da
+        from optyx.core.functions import sqrt as sqrt_fn
+
+        inner = _simplify_add(Constant(1.0), _simplify_mul(operand, operand))
+        return _simplify_mul(
+            _simplify_div(Constant(1.0), sqrt_fn(inner)), d_operand
+        )
+
+    elif expr.op == "acosh":
+        # d/dx(acosh(a)) = 1 / sqrt(a^2 - 1) * da
+        from optyx.core.functions import sqrt as sqrt_fn
+
+        inner = _simplify_sub(_simplify_mul(operand, operand), Constant(1.0))
+        return _simplify_mul(
+            _simplify_div(Constant(1.0), sqrt_fn(inner)), d_operand
+        )
+
+    elif expr.op == "atanh":
+        # d/dx(atanh(a)) = 1 / (1 - a^2) * da
+        inner = _simplify_sub(Constant(1.0), _simplify_mul(operand, operand))
+        return _simplify_mul(_simplify_div(Constant(1.0), inner), d_operand)
+
+    elif expr.op == "log2":
+        # d/dx(log2(a)) = 1 / (a * ln(2)) * da
+        ln2 = Constant(np.log(2.0))
+        return _simplify_mul(
+            _simplify_div(Constant(1.0), _simplify_mul(operand, ln2)), d_operand
+        )
+
+    elif expr.op == "log10":
+        # d/dx(log10(a)) = 1 / (a * ln(10)) * da
+        ln10 = Constant(np.log(10.0))
+        return _simplify_mul(
+            _simplify_div(Constant(1.0), _simplify_mul(operand, ln10)), d_operand
+        )
+
+    else:
+        raise UnknownOperatorError(
+            operator=expr.op,
+            context="gradient computation (unary)",
+        )
 
 
 # =============================================================================
@@ -614,45 +628,9 @@ def _gradient_iterative(expr: Expression, wrt: Variable) -> Expression:
             else:
                 d_operand = results[id(operand)]
 
-            # Compute gradient based on operator
-            if current.op == "neg":
-                results[node_id] = _simplify_neg(d_operand)
-            elif current.op == "abs":
-                sign_expr = _simplify_div(operand, current)
-                results[node_id] = _simplify_mul(sign_expr, d_operand)
-            elif current.op == "sin":
-                results[node_id] = _simplify_mul(cos(operand), d_operand)
-            elif current.op == "cos":
-                results[node_id] = _simplify_mul(_simplify_neg(sin(operand)), d_operand)
-            elif current.op == "tan":
-                cos_a = cos(operand)
-                sec2 = _simplify_div(Constant(1.0), _simplify_mul(cos_a, cos_a))
-                results[node_id] = _simplify_mul(sec2, d_operand)
-            elif current.op == "exp":
-                results[node_id] = _simplify_mul(current, d_operand)
-            elif current.op == "log":
-                results[node_id] = _simplify_mul(
-                    _simplify_div(Constant(1.0), operand), d_operand
-                )
-            elif current.op == "sqrt":
-                two_sqrt = _simplify_mul(Constant(2.0), current)
-                results[node_id] = _simplify_mul(
-                    _simplify_div(Constant(1.0), two_sqrt), d_operand
-                )
-            elif current.op == "tanh":
-                tanh_squared = _simplify_mul(current, current)
-                sech2 = _simplify_sub(Constant(1.0), tanh_squared)
-                results[node_id] = _simplify_mul(sech2, d_operand)
-            elif current.op == "sinh":
-                results[node_id] = _simplify_mul(cosh(operand), d_operand)
-            elif current.op == "cosh":
-                results[node_id] = _simplify_mul(sinh(operand), d_operand)
-            else:
-                # For other unary ops, fall back to numerical or raise
-                raise UnknownOperatorError(
-                    operator=current.op,
-                    context="iterative gradient computation (unary)",
-                )
+            # Compute gradient based on operator (rules shared with the
+            # recursive traversal)
+            results[node_id] = _unary_gradient(current, operand, d_operand)
             continue
 
         raise InvalidExpressionError(
